@@ -35,6 +35,7 @@ type SignedDataSpec struct {
 	SIDIssuer    Name   // nil: the certificate's issuer name as is
 	SigningTime  *time.Time
 	Indefinite   bool
+	IndefMask    int // see Build: which levels are indefinite (0 = all)
 	HashNoParams bool // digest AlgorithmIdentifier without NULL
 	// fault hooks (byzantine issuer / attacker): applied before signing unless stated otherwise
 	WrongMessageDigest bool // messageDigest attribute does not match eContent (still signed)
@@ -121,8 +122,20 @@ func BuildSignedData(s SignedDataSpec, rng *core.Rng) *SignedData {
 		for _, p := range sdContent {
 			inner = append(inner, p...)
 		}
-		sd := der.Indefinite(0x30, inner)
-		out = der.Indefinite(0x30, append(der.OID(OidSignedData...), der.Indefinite(0xA0, sd)...))
+		// which of the three enclosing levels use the indefinite form: ContentInfo SEQUENCE (1), [0] wrapper (2),
+		// SignedData SEQUENCE (4); 0 = all of them
+		m := s.IndefMask & 7
+		if m == 0 {
+			m = 7
+		}
+		lvl := func(bit int, tag byte, content []byte) []byte {
+			if m&bit != 0 {
+				return der.Indefinite(tag, content)
+			}
+			return der.TLV(tag, content)
+		}
+		sd := lvl(4, 0x30, inner)
+		out = lvl(1, 0x30, append(der.OID(OidSignedData...), lvl(2, 0xA0, sd)...))
 	} else {
 		out = der.Seq(der.OID(OidSignedData...), der.Explicit(0, der.Seq(sdContent...)))
 	}
